@@ -30,7 +30,7 @@ package plot
 //@   requires [series-invariant] TSINV() && ists(ts)
 //@   ensures [series-invariant] TSINV() && (forall t *plot.timeSeries :: ists(t) == old(ists(t)))
 //@   assume   [fewer-than-2^62-points] ts.len < 4611686018427387904
-//@   modifies ts.prev, ts.len, *ts.data
+//@   modifies ts.prev, ts.len, *ts.data, ghost(pushed, ts.data), ghost(lastT, ts.data), ghost(lastV, ts.data)
 //@   ensures [rejected-leaves-series-unchanged] old(ts.prev) > t ==> result != nil && ts.prev == old(ts.prev) && ts.len == old(ts.len) && pushed(ts.data) == old(pushed(ts.data))
 //@   ensures [one-point-pushed] old(ts.prev) <= t ==> result == nil && ts.prev == t && ts.len == old(ts.len) + 1 && pushed(ts.data) == old(pushed(ts.data)) + 1
 //@              && lastT(ts.data) == t && lastV(ts.data) == v
@@ -64,6 +64,7 @@ package plot
 //@   ensures [time-origin-is-first-request] old(ls.seq) == 0 && r.Seq == 0 ==> ls.began == r.Timestamp
 //@   loop 1
 //@     invariant ls == old(ls) && ls.buf == old(ls.buf) && ls.buf != nil && ls.seq == old(ls.seq) + released && released >= 0 && r.Seq == old(ls.seq)
+//@     invariant released + len(ls.buf) <= old(len(ls.buf)) + 1
 //@     invariant forall s int :: has(ls.buf, s) == ((old(has(ls.buf, s)) || s == r.Seq) && !(old(ls.seq) <= s && s < ls.seq))
 //@     invariant forall s int :: has(ls.buf, s) ==> ls.buf[s].seq == s && ls.buf[s].ts != nil && ls.buf[s].ts.data != nil && ls.buf[s].t >= ls.began
 //@     invariant TSINV() && (forall l string :: has(ls.series, l) ==> ls.series[l] != nil && ists(ls.series[l])) && (forall s int :: has(ls.buf, s) ==> ists(ls.buf[s].ts)) && (forall t *plot.timeSeries :: old(ists(t)) ==> ists(t))
